@@ -75,7 +75,7 @@ def target (cwd root filename : Str) : Str :=
   abspath cwd (join (rootDir cwd root) (stripSeps filename))
 
 /-- the access decision of `static_file` -/
-def decide (fs : Fs) (cwd root filename : Str) : Decision :=
+def staticDecide (fs : Fs) (cwd root filename : Str) : Decision :=
   let r := rootDir cwd root
   let p := target cwd root filename
   if ¬ r.isPrefixOf p then .deny403                               -- not filename.startswith(root)
@@ -93,7 +93,7 @@ structure Outcome where
   deriving Repr, DecidableEq
 
 def serve (fs : Fs) (cwd root filename : Str) (isHead notMod : Bool) : Outcome :=
-  match decide fs cwd root filename with
+  match staticDecide fs cwd root filename with
   | .deny403 => ⟨403, []⟩
   | .deny404 => ⟨404, []⟩
   | .open_ p =>
